@@ -90,6 +90,8 @@ enum SK { Trades, L1, Liq }
 
 #[derive(Clone, Copy, Debug, PartialEq, Eq)]
 enum IK { Spot, Perp, Fut(i64), Opt { call: bool, strike: i64, expiry: i64, american: bool } }
+/// a strike: whole when >= 0; a NEGATIVE value encodes tenths (-18505 is the strike 1850.5), printed by the venue as `1850.5`
+fn strike_dec(s: i64) -> Decimal { if s >= 0 { Decimal::from(s) } else { Decimal::new(-s, 1) } }
 #[derive(Clone, Copy, Debug, PartialEq, Eq)]
 struct Inst { base: &'static str, quote: &'static str, kind: IK }
 
@@ -105,7 +107,7 @@ impl Inst {
             IK::Perp => MarketDataInstrumentKind::Perpetual,
             IK::Fut(e) => MarketDataInstrumentKind::Future(MarketDataFutureContract { expiry: date(e) }),
             IK::Opt { call, strike, expiry, american } => MarketDataInstrumentKind::Option(MarketDataOptionContract {
-                kind: if call { OptionKind::Call } else { OptionKind::Put }, exercise: if american { OptionExercise::American } else { OptionExercise::European }, expiry: date(expiry), strike: Decimal::from(strike),
+                kind: if call { OptionKind::Call } else { OptionKind::Put }, exercise: if american { OptionExercise::American } else { OptionExercise::European }, expiry: date(expiry), strike: strike_dec(strike),
             }),
         }
     }
@@ -133,12 +135,12 @@ fn venue_market(v: V, i: &Inst) -> String {
             IK::Spot => format!("{b}-{q}"),
             IK::Perp => format!("{b}-{q}-SWAP"),
             IK::Fut(e) => format!("{b}-{q}-{}", date(e).format("%y%m%d")),
-            IK::Opt { call, strike, expiry, .. } => format!("{b}-{q}-{}-{strike}-{}", date(expiry).format("%y%m%d"), cp(call)),
+            IK::Opt { call, strike, expiry, .. } => format!("{b}-{q}-{}-{}-{}", date(expiry).format("%y%m%d"), strike_dec(strike), cp(call)),
         },
         V::GateSpot | V::GateFutUsd | V::GateFutBtc | V::GatePerpUsd | V::GatePerpBtc | V::GateOpt => match i.kind {
             IK::Spot | IK::Perp => format!("{b}_{q}"),
             IK::Fut(e) => format!("{b}_{q}_QUARTERLY_{}", date(e).format("%Y%m%d")),
-            IK::Opt { call, strike, expiry, .. } => format!("{b}_{q}-{}-{strike}-{}", date(expiry).format("%Y%m%d"), cp(call)),
+            IK::Opt { call, strike, expiry, .. } => format!("{b}_{q}-{}-{}-{}", date(expiry).format("%Y%m%d"), strike_dec(strike), cp(call)),
         },
     }
 }
@@ -401,14 +403,15 @@ fn universe(v: V) -> Vec<Inst> {
         V::BinanceSpot | V::Kraken | V::Coinbase | V::BybitSpot | V::GateSpot => of(IK::Spot, 7),
         V::BinanceFut | V::BybitPerp | V::GatePerpUsd | V::GatePerpBtc | V::Bitmex => of(IK::Perp, 7),
         V::GateFutUsd | V::GateFutBtc => { let mut u = of(IK::Fut(E1), 5); u.push(Inst { base: "btc", quote: "usdt", kind: IK::Fut(E2) }); u.push(Inst { base: "eth", quote: "usdt", kind: IK::Fut(E2) }); u }
-        V::GateOpt => vec![opt("btc", true, 35000, E1), opt("BtC", true, 35000, E1), opt("btc", false, 35000, E1), opt("btc", true, 350000, E1), opt("btc", true, 3500, E1), opt("btc", true, 35000, E2), opt("eth", true, 35000, E1)],
+        V::GateOpt => vec![opt("btc", true, 35000, E1), opt("BtC", true, 35000, E1), opt("btc", false, 35000, E1), opt("btc", true, 350000, E1), opt("btc", true, 3500, E1), opt("btc", true, 35000, E2), opt("eth", true, 35000, E1), opt("btc", true, -350005, E1)],
         V::Okx => { let mut u = of(IK::Spot, 4); u.push(Inst { base: "btc", quote: "usdt", kind: IK::Perp }); u.push(Inst { base: "btc", quote: "usdt", kind: IK::Fut(E1) }); u.push(Inst { base: "btc", quote: "usdt", kind: IK::Fut(E2) }); 
             // FIXED DEFECT (was a finding on the tree as found; now always checked): okx_market formats a future's / option's expiry with
             // chrono "%g%m%d" (%g = ISO-8601 WEEK-year). For an expiry whose ISO week-year differs from its calendar year (Friday 2027-01-01:
             // ISO week 53 of 2026) the subscription is registered under "BTC-USDT-260101" while the venue names the market "BTC-USDT-270101":
             // every message for the subscribed contract is answered with Unidentifiable.
             if known() { u.push(Inst { base: "btc", quote: "usdt", kind: IK::Fut(E3) }); }
-            u.push(opt("btc", true, 35000, E1)); u.push(opt("btc", false, 35000, E1)); u.push(opt("btc", true, 350000, E1)); u }
+            u.push(opt("btc", true, 35000, E1)); u.push(opt("btc", false, 35000, E1)); u.push(opt("btc", true, 350000, E1));
+            u.push(opt("btc", true, -350005, E1)); /* strike 35000.5: differs from 35000 only by its fraction */ u }
     }
 }
 
@@ -455,7 +458,7 @@ impl XI {
             IK::Fut(e) => InstrumentKind::Future(FutureContract { contract_size: Decimal::ONE, settlement_asset: Asset::from(self.i.quote), expiry: date(e) }),
             IK::Opt { call, strike, expiry, american } => InstrumentKind::Option(OptionContract {
                 contract_size: Decimal::ONE, settlement_asset: Asset::from(self.i.base), kind: if call { OptionKind::Call } else { OptionKind::Put },
-                exercise: if american { OptionExercise::American } else { OptionExercise::European }, expiry: date(expiry), strike: Decimal::from(strike),
+                exercise: if american { OptionExercise::American } else { OptionExercise::European }, expiry: date(expiry), strike: strike_dec(strike),
             }),
         };
         Instrument::new(exchange_id(self.v), self.name_internal(), self.market(), Underlying::new(self.i.base, self.i.quote), InstrumentQuoteAsset::UnderlyingQuote, kind, None)
@@ -511,6 +514,8 @@ fn indexed_universe() -> Vec<XI> {
             add(pairs[0], o(false, 35000, E1, false)); // only Call/Put
             add(pairs[0], o(true, 350000, E1, false)); // only strike
             add(pairs[0], o(true, 3500, E1, false)); // only strike
+            add(pairs[0], o(true, -350005, E1, false)); // a FRACTIONAL strike (35000.5) next to the whole one: only the fraction differs
+            add(pairs[0], o(true, -35005, E1, false)); // 3500.5 next to 3500
             add(pairs[0], o(true, 35000, E2, false)); // only expiry
             add(pairs[0], o(true, 35000, E1, true)); // only exercise style
             add(pairs[0], o(false, 35000, E1, true)); // Call/Put + exercise style
